@@ -93,6 +93,49 @@ def c_cmp_unbound(prog, r):
   return dict(text=G.p_program(np_), pred=d['name'], offender='zz9', expect=(1,), model=np_)
 
 
+def c_cmp_unbound_captured(prog, r):
+  """An unbound comparison variable in a (possibly injectible) callee rule that is NAMED like a variable the calling
+  rule binds; the caller is asked for: the name must not be captured, the program stays invalid."""
+  types = {d['name']: d['types'] for d in prog}
+  cands = []
+  for caller in derived(prog):
+    for rule in caller['rules']:
+      callees = [p for p in preds_used(rule.get('body'), set()) if p != caller['name'] and any(d['name'] == p for d in derived(prog))]
+      if not callees:
+        continue
+      # int variables of the caller's rule: arguments at int columns of body atoms
+      ivars = set()
+
+      def scan(x):
+        if isinstance(x, tuple):
+          if x and x[0] == 'atom' and x[1] in types:
+            for f, e in x[2]:
+              if isinstance(e, tuple) and e and e[0] == 'var' and types[x[1]].get(f) == 'int':
+                ivars.add(e[1])
+          if x and x[0] in ('combine', 'not'):
+            return
+          for y in x:
+            scan(y)
+        elif isinstance(x, list):
+          for y in x:
+            scan(y)
+      scan(rule.get('body'))
+      for c in callees:
+        for v in ivars:
+          cands.append((caller['name'], c, v))
+  r.shuffle(cands)
+  for caller_name, callee, v in cands:
+    d = [x for x in prog if x['name'] == callee][0]
+    k = r.randrange(len(d['rules']))
+    rule = d['rules'][k]
+    if v in G._vars_in((rule['head'], rule.get('body'))) if hasattr(G, '_vars_in') else v in str((rule['head'], rule.get('body'))):
+      continue
+    cond = ('c', ('cond', ('bin', r.choice(['<', '>', '!=']), ('var', v), ('int', 1))))
+    np_ = replace_rule(prog, callee, k, dict(rule, body=('and', body_items(rule) + [cond])))
+    return dict(text=G.p_program(np_), pred=caller_name, offender=v, offender_optional=True, expect=(1,), model=np_)
+  return None
+
+
 def c_neg_unbound(prog, r):
   d = r.choice(derived(prog))
   k = r.randrange(len(d['rules']))
@@ -214,6 +257,7 @@ def c_unbalanced(prog, r):
 CATALOGUE = [
     ('head_variable_unbound', c_head_unbound),
     ('comparison_variable_unbound', c_cmp_unbound),
+    ('comparison_variable_unbound_named_like_a_caller_variable', c_cmp_unbound_captured),
     ('negation_variable_unbound', c_neg_unbound),
     ('aggregation_without_distinct', c_agg_without_distinct),
     ('distinct_inconsistent', c_distinct_inconsistent),
